@@ -100,7 +100,7 @@ Theorem C17_checker_accepts_model : forall w evs p t,
 Proof. exact classify_model. Qed.
 Print Assumptions C17_checker_accepts_model.
 
-(* Regression: blockPeer as it was before commit 7f68b0d (unconditional overwrite) violates
+(* Regression: blockPeer as it was before commit 6a06465 (unconditional overwrite) violates
    C17_permanent and C17_timed_full_term. *)
 Theorem C17_permanent_refuted : exists pre post p t0 t,
   query_answer_v0 wiring_now (pre ++ Block p 0 t0 :: post) p t = false.
